@@ -9,7 +9,7 @@ impl<Tz> View for DateTime<Tz> { type V = int; uninterp spec fn view(&self) -> i
 
 impl<Tz> Clone for DateTime<Tz> {
     #[verifier::external_body]
-    fn clone(&self) -> (r: Self) ensures r@ == self@ { unimplemented!() }
+    fn clone(&self) -> (r: Self) ensures r == *self { unimplemented!() }
 }
 impl<Tz> Copy for DateTime<Tz> {}
 
@@ -39,7 +39,7 @@ impl<Tz> vstd::std_specs::cmp::PartialOrdSpecImpl for DateTime<Tz> {
 #[verifier::external_body]
 pub struct TimeDelta { _p: () }
 impl View for TimeDelta { type V = int; uninterp spec fn view(&self) -> int; }
-impl Clone for TimeDelta { #[verifier::external_body] fn clone(&self) -> (r: Self) ensures r@ == self@ { unimplemented!() } }
+impl Clone for TimeDelta { #[verifier::external_body] fn clone(&self) -> (r: Self) ensures r == *self { unimplemented!() } }
 impl Copy for TimeDelta {}
 pub uninterp spec fn ms_per_instant_unit() -> int;   // DateTime views are in an arbitrary fixed unit; durations are differences in that unit
 impl<Tz> DateTime<Tz> {
